@@ -1,7 +1,7 @@
 (* Forward reasoning on the buffered token stream of the parser model (ParserBase: _TokenStream with
    lazy delivery, typedef-name classification at delivery time, mark / reset):
    [Up s l]: the tokens the parser will see next from state s are l (a prefix of what is to come),
-   none of them a brace (braces change the scope stack at delivery).  peek / peek(2) / advance /
+   braces included (they open and close a scope at delivery; the stack is threaded through UpR).  peek / peek(2) / advance /
    accept / expect / reset behave on such a state as on a plain list. *)
 From Coq Require Import List NArith Bool Arith Lia.
 Import ListNotations.
@@ -13,27 +13,27 @@ Variable P : Type.
 Notation pstate := (pstate P).
 Notation tok := (tok P).
 
-Definition plain_kind (k: kind) : bool := negb (kind_eqb k K_LBRACE) && negb (kind_eqb k K_RBRACE).
-
-(* the token an item is delivered as, under the scope stack sc *)
-Definition cl (sc: list (list (option str * bool))) (i: pitem P) : option tok :=
+(* the token an item is delivered as under the scope stack sc, and the scope stack afterwards:
+   `{` opens a scope at delivery, `}` closes one (there must be one to close) *)
+Definition cl (sc: list (list (option str * bool))) (i: pitem P) : option (tok * list (list (option str * bool))) :=
   match i with
   | PTok _ k v p fa =>
-    if plain_kind k
-    then Some (mkTok P (if kind_eqb k K_ID then (if is_type_in (Some v) sc then K_TYPEID else K_ID) else k) v p)
-    else None
+    let t := mkTok P (if kind_eqb k K_ID then (if is_type_in (Some v) sc then K_TYPEID else K_ID) else k) v p in
+    if kind_eqb k K_LBRACE then Some (t, [] :: sc)
+    else if kind_eqb k K_RBRACE then match sc with _ :: (_ :: _) as sc' => Some (t, sc') | _ => None end
+    else Some (t, sc)
   | _ => None
   end.
 
-Inductive UpR (sc: list (list (option str * bool))) : list (pitem P) -> list tok -> Prop :=
-| UpR_nil : forall r, UpR sc r []
-| UpR_cons : forall i r t l, cl sc i = Some t -> UpR sc r l -> UpR sc (i :: r) (t :: l).
+Inductive UpR : list (list (option str * bool)) -> list (pitem P) -> list tok -> Prop :=
+| UpR_nil : forall sc r, UpR sc r []
+| UpR_cons : forall sc i r t sc' l, cl sc i = Some (t, sc') -> UpR sc' r l -> UpR sc (i :: r) (t :: l).
 
 Definition Up (s: pstate) (l: list tok) : Prop :=
   exists a l2, after P s = map Some a /\ l = a ++ l2 /\ UpR (scopes P s) (raw P s) l2.
 
-Lemma UpR_inv : forall sc rw t l, UpR sc rw (t :: l) -> exists i r, rw = i :: r /\ cl sc i = Some t /\ UpR sc r l.
-Proof. intros sc rw t l H. inversion H as [|i r t' l' Hc HU' Hr]. exists i, r. split; [reflexivity|split; assumption]. Qed.
+Lemma UpR_inv : forall sc rw t l, UpR sc rw (t :: l) -> exists i r sc', rw = i :: r /\ cl sc i = Some (t, sc') /\ UpR sc' r l.
+Proof. intros sc rw t l H. inversion H as [|sc0 i r t' sc' l' Hc HU' Hs Hr]. exists i, r, sc'. split; [reflexivity|split; assumption]. Qed.
 
 Definition Same (s s1: pstate) : Prop := before P s1 = before P s /\ idx P s1 = idx P s.
 Definition Adv (t: tok) (s s2: pstate) : Prop := before P s2 = Some t :: before P s /\ idx P s2 = S (idx P s).
@@ -47,13 +47,16 @@ Proof. intros t a b c [H1 H2] [H3 H4]. split; congruence. Qed.
 Lemma Same_Adv : forall t a b c, Same a b -> Adv t b c -> Adv t a c.
 Proof. intros t a b c [H1 H2] [H3 H4]. split; congruence. Qed.
 
-(* delivery of one plain item *)
-Lemma deliver1_plain : forall (s: pstate) i r t, raw P s = i :: r -> cl (scopes P s) i = Some t ->
-  exists fa, deliver1 P s = Ok (tt, mkPS P r (eof_file P s) (before P s) (after P s ++ [Some t]) (idx P s) (scopes P s) fa (ticks P s)).
+(* delivery of one item *)
+Lemma deliver1_plain : forall (s: pstate) i r t sc', raw P s = i :: r -> cl (scopes P s) i = Some (t, sc') ->
+  exists fa, deliver1 P s = Ok (tt, mkPS P r (eof_file P s) (before P s) (after P s ++ [Some t]) (idx P s) sc' fa (ticks P s)).
 Proof.
-  intros s i r t Hr Hc. unfold deliver1. rewrite Hr. destruct i as [k v p fa|msg p f|]; cbn [cl] in Hc; try discriminate.
-  unfold plain_kind in Hc. destruct (kind_eqb k K_LBRACE) eqn:E1; [discriminate|]. destruct (kind_eqb k K_RBRACE) eqn:E2; [discriminate|].
-  cbn [negb andb] in Hc. injection Hc as <-. exists fa. reflexivity.
+  intros s i r t sc' Hr Hc. unfold deliver1. rewrite Hr. destruct i as [k v p fa|msg p f|]; cbn [cl] in Hc; try discriminate.
+  destruct (kind_eqb k K_LBRACE) eqn:E1.
+  - injection Hc as <- <-. exists fa. reflexivity.
+  - destruct (kind_eqb k K_RBRACE) eqn:E2.
+    + destruct (scopes P s) as [|s0 [|s1 sr]]; try discriminate Hc. injection Hc as <- <-. exists fa. reflexivity.
+    + injection Hc as <- <-. exists fa. reflexivity.
 Qed.
 
 Lemma last_is_none_snoc : forall (l: list (option tok)) t, last_is_none P (l ++ [Some t]) = false.
@@ -69,8 +72,8 @@ Lemma fill1_up : forall s t l, Up s (t :: l) ->
   exists s1 r, fill P 1 s = Ok (tt, s1) /\ after P s1 = Some t :: r /\ Up s1 (t :: l) /\ Same s s1.
 Proof.
   intros s t l [a [l2 [Ha [Hl HU]]]]. destruct a as [|t0 a].
-  - cbn [app] in Hl. subst l2. destruct (UpR_inv _ _ _ _ HU) as [i [r [Hr [Hc HU']]]].
-    destruct (deliver1_plain s i r t Hr Hc) as [fa Hd].
+  - cbn [app] in Hl. subst l2. destruct (UpR_inv _ _ _ _ HU) as [i [r [sc' [Hr [Hc HU']]]]].
+    destruct (deliver1_plain s i r t sc' Hr Hc) as [fa Hd].
     eexists. exists []. split; [|split; [|split]].
     + unfold fill. cbn [fill_aux]. unfold bind at 1. unfold get at 1. rewrite Ha. cbn [map length Nat.ltb Nat.leb].
       unfold bind at 1. rewrite Hd. unfold bind at 1. unfold get at 1. cbn [after]. rewrite last_is_none_snoc. reflexivity.
@@ -138,11 +141,11 @@ Proof.
   intros s t1 t2 l [a [l2 [Ha [Hl HU]]]].
   assert (Hfill: exists s1 r, fill P 2 s = Ok (tt, s1) /\ after P s1 = Some t1 :: Some t2 :: r /\ Up s1 (t1 :: t2 :: l) /\ Same s s1).
   { destruct a as [|a1 [|a2 a]].
-    - cbn [app] in Hl. subst l2. destruct (UpR_inv _ _ _ _ HU) as [i [r [Hr [Hc HU']]]].
-      destruct (deliver1_plain s i r t1 Hr Hc) as [fa Hd].
-      destruct (UpR_inv _ _ _ _ HU') as [i2 [r2 [Hr2 [Hc2 HU2]]]]. subst r.
-      set (sA := mkPS P (i2 :: r2) (eof_file P s) (before P s) (after P s ++ [Some t1]) (idx P s) (scopes P s) fa (ticks P s)) in *.
-      destruct (deliver1_plain sA i2 r2 t2 eq_refl Hc2) as [fb Hd2].
+    - cbn [app] in Hl. subst l2. destruct (UpR_inv _ _ _ _ HU) as [i [r [sc' [Hr [Hc HU']]]]].
+      destruct (deliver1_plain s i r t1 sc' Hr Hc) as [fa Hd].
+      destruct (UpR_inv _ _ _ _ HU') as [i2 [r2 [sc2 [Hr2 [Hc2 HU2]]]]]. subst r.
+      set (sA := mkPS P (i2 :: r2) (eof_file P s) (before P s) (after P s ++ [Some t1]) (idx P s) sc' fa (ticks P s)) in *.
+      destruct (deliver1_plain sA i2 r2 t2 sc2 eq_refl Hc2) as [fb Hd2].
       eexists. exists []. split; [|split; [|split]].
       + unfold fill. cbn [fill_aux]. unfold bind at 1. unfold get at 1. rewrite Ha. cbn [map length Nat.ltb Nat.leb].
         unfold bind at 1. rewrite Hd. fold sA. unfold bind at 1. unfold get at 1. unfold sA at 1. cbn [after]. rewrite last_is_none_snoc.
@@ -151,8 +154,8 @@ Proof.
       + unfold sA. cbn [after]. rewrite Ha. reflexivity.
       + exists [t1; t2], l. unfold sA. cbn [after scopes raw]. rewrite Ha. split; [reflexivity|split; [reflexivity|exact HU2]].
       + split; reflexivity.
-    - cbn [app] in Hl. injection Hl as E Hl. subst a1. subst l2. destruct (UpR_inv _ _ _ _ HU) as [i [r [Hr [Hc HU']]]].
-      destruct (deliver1_plain s i r t2 Hr Hc) as [fa Hd].
+    - cbn [app] in Hl. injection Hl as E Hl. subst a1. subst l2. destruct (UpR_inv _ _ _ _ HU) as [i [r [sc' [Hr [Hc HU']]]]].
+      destruct (deliver1_plain s i r t2 sc' Hr Hc) as [fa Hd].
       eexists. exists []. split; [|split; [|split]].
       + unfold fill. cbn [fill_aux]. unfold bind at 1. unfold get at 1. rewrite Ha. cbn [map length Nat.ltb Nat.leb].
         unfold bind at 1. rewrite Hd. unfold bind at 1. unfold get at 1. cbn [after]. rewrite last_is_none_snoc.
